@@ -395,6 +395,10 @@ class Wtp:
 
         if self.backup_db_path.exists():
             self.db_path.unlink(True)
+            # The write-ahead log belongs to the file being replaced; left in
+            # place it would be replayed over the restored database.
+            for suffix in ("-wal", "-shm"):
+                Path(str(self.db_path) + suffix).unlink(True)
             self.backup_db_path.rename(self.db_path)
 
         self.db_conn = sqlite3.connect(self.db_path, check_same_thread=False)
